@@ -498,12 +498,12 @@ func checkC14Router(sc *Scenario) *CheckOut {
 }
 
 func init() {
-	register(&Profile{Prop: "C14", Name: "lru-sequential", Quick: 20000, Thorough: 1500000, Gen: genC14Ops(false), Check: checkC14Ops,
+	register(&Profile{Prop: "C14", Name: "lru-sequential", Quick: 60000, Thorough: 1500000, Gen: genC14Ops(false), Check: checkC14Ops,
 		Rule: "a history is non-trivial when it has at least three operations"})
-	register(&Profile{Prop: "C14", Name: "lru-concurrent", Quick: 6000, Thorough: 300000, Gen: genC14Ops(true), Check: checkC14Ops,
+	register(&Profile{Prop: "C14", Name: "lru-concurrent", Quick: 18000, Thorough: 300000, Gen: genC14Ops(true), Check: checkC14Ops,
 		Rule: "a concurrent history is non-trivial when operations of different clients overlap in invocation/return order"})
-	register(&Profile{Prop: "C14", Name: "lru-concurrent-race", Race: true, Quick: 600, Thorough: 30000, Gen: genC14Ops(true), Check: checkC14Ops,
+	register(&Profile{Prop: "C14", Name: "lru-concurrent-race", Race: true, Quick: 1200, Thorough: 30000, Gen: genC14Ops(true), Check: checkC14Ops,
 		Rule: "as lru-concurrent, executed under the race detector"})
-	register(&Profile{Prop: "C14", Name: "router", Quick: 8000, Thorough: 400000, Gen: genC14Router, Check: checkC14Router,
+	register(&Profile{Prop: "C14", Name: "router", Quick: 24000, Thorough: 400000, Gen: genC14Router, Check: checkC14Router,
 		Rule: "a history is non-trivial when at least one request resolved to a dynamic route on the caching router"})
 }
